@@ -1,6 +1,7 @@
 (* C04 — pinned property theorems about boa's binding escape analysis (model: Model_C04.v). *)
 From Coq Require Import NArith List Bool Arith.
-From C04 Require Import Model_C04 Proofs_C04.
+From Coq Require Import ZArith.
+From C04 Require Import Model_C04 Proofs_C04 Deep1_C04 Deep2_C04.
 Import ListNotations.
 
 (* Soundness of the ESCAPES verdict for every syntactic identifier occurrence, for every scope-annotated
@@ -207,3 +208,150 @@ Example eval_hypotheses_satisfiable :
   let '(k, T0) := collect_script false ex_eval in
   honest k = true /\ In 2 (ev_scopes k) /\ all_esc (analyze false ex_eval) 2 = true /\ wf_table T0 = true.
 Proof. vm_compute. repeat split; auto. Qed.
+
+
+(* ================================================================================================ *)
+(* Deepening round: the semantic half (Deep1_C04.v) and the operand shortcuts (Deep2_C04.v) *)
+
+(* In the instrumented semantics `ev` (binding access events of every execution: closures called in fresh
+   activations, scopes instantiated by the running activation, direct eval touching any visible binding by name from
+   any activation, by-name lookups under `with`): a binding that the analysis leaves `local` is accessed only by the
+   activation that created it, and only by compiled (not by-name) accesses — for every skeleton laid out on the table
+   the way the collector lays it out (wsk), with truthful flags, started in a consistent state. *)
+Theorem local_single_activation_sk :
+  forall (T : table) (k : sk) (cur : nat) (de w dm : bool) (aid : nat) (rho : nat -> nat)
+         (actor owner sb : nat) (x : name) (dyn : bool),
+    wf_table T = true -> wsk T k cur = true -> honest k = true ->
+    Inv T cur aid rho ->
+    (forall y s, reach T cur y s -> all_esc T s = true) ->
+    (dm = true -> w = true) ->
+    ev T k cur dm aid rho (Acc actor owner sb x dyn) ->
+    local (an k cur de w T) sb x = true ->
+    actor = owner /\ dyn = false.
+Proof. exact Deep1_C04.local_single_activation_sk. Qed.
+Check local_single_activation_sk :
+  forall (T : table) (k : sk) (cur : nat) (de w dm : bool) (aid : nat) (rho : nat -> nat)
+         (actor owner sb : nat) (x : name) (dyn : bool),
+    wf_table T = true -> wsk T k cur = true -> honest k = true ->
+    Inv T cur aid rho ->
+    (forall y s, reach T cur y s -> all_esc T s = true) ->
+    (dm = true -> w = true) ->
+    ev T k cur dm aid rho (Acc actor owner sb x dyn) ->
+    local (an k cur de w T) sb x = true ->
+    actor = owner /\ dyn = false.
+Print Assumptions local_single_activation_sk.
+
+(* For whole scripts: the only hypothesis left is the executable `sem_hyp` (outer pointers decrease, the skeleton
+   hangs on the table as laid out, the root is the global scope with escaping bindings), evaluated by the extracted
+   model on every generated program. *)
+Theorem local_single_activation :
+  forall (strict : bool) (stmts : list node), sem_hyp strict stmts = true ->
+  forall (aid0 actor owner sb : nat) (x : name) (dyn : bool),
+    ev (snd (collect_script strict stmts)) (fst (collect_script strict stmts)) 0 false aid0 (fun _ => aid0)
+       (Acc actor owner sb x dyn) ->
+    local (analyze strict stmts) sb x = true ->
+    actor = owner /\ dyn = false.
+Proof. exact Deep1_C04.local_single_activation. Qed.
+Check local_single_activation :
+  forall (strict : bool) (stmts : list node), sem_hyp strict stmts = true ->
+  forall (aid0 actor owner sb : nat) (x : name) (dyn : bool),
+    ev (snd (collect_script strict stmts)) (fst (collect_script strict stmts)) 0 false aid0 (fun _ => aid0)
+       (Acc actor owner sb x dyn) ->
+    local (analyze strict stmts) sb x = true ->
+    actor = owner /\ dyn = false.
+Print Assumptions local_single_activation.
+
+(* the semantics is not vacuous: in `function f(){ let x; return () => x }` activation 2 (a call of the arrow) reads
+   the x created by activation 1 (a call of f) — and x is not local *)
+Example capture_event :
+  ev (snd (collect_script false ex_capture)) (fst (collect_script false ex_capture)) 0 false 0 (fun _ => 0)
+     (Acc 2 1 2 3%N false) /\ sem_hyp false ex_capture = true /\ local (analyze false ex_capture) 2 3%N = false.
+Proof.
+  split; [|split; vm_compute; reflexivity].
+  vm_compute collect_script. simpl fst; simpl snd.
+  eapply ev_seq; [left; reflexivity|].
+  eapply (ev_fun_body _ _ _ _ _ _ _ _ _ _ _ 1); [discriminate | intros; discriminate | right; left; reflexivity |].
+  eapply ev_seq; [left; reflexivity|].
+  eapply (ev_fun_body _ _ _ _ _ _ _ _ _ _ _ 2); [discriminate | intros s; unfold setr_all; destruct (existsb _ _); discriminate | left; reflexivity |].
+  eapply ev_seq; [left; reflexivity|].
+  match goal with |- ev ?T ?k ?c ?d ?a ?r _ => change (ev T k c d a r (Acc a (r 2) 2 3%N d)) end.
+  eapply ev_id. vm_compute. reflexivity.
+Qed.
+
+(* compile_expr_operand_before as repaired (copy the left operand unless the right one is a literal, an identifier or
+   `this`) computes what the left-to-right reference semantics computes, for every expression and store *)
+Theorem operand_snapshot_sound : forall (e : ex) (st : store), cmp snapshot_new e st = ref e st.
+Proof. exact operand_snapshot_sound_. Qed.
+Check operand_snapshot_sound : forall (e : ex) (st : store), cmp snapshot_new e st = ref e st.
+Print Assumptions operand_snapshot_sound.
+
+(* … and so does every rule that copies whenever the later operand can assign that local *)
+Theorem operand_rule_sound_general : forall snapshot : ex -> ex -> bool,
+  (forall x b, snapshot (Loc x) b = false -> assigns x b = false) ->
+  forall (e : ex) (st : store), cmp snapshot e st = ref e st.
+Proof. exact operand_rule_sound. Qed.
+Check operand_rule_sound_general : forall snapshot : ex -> ex -> bool,
+  (forall x b, snapshot (Loc x) b = false -> assigns x b = false) ->
+  forall (e : ex) (st : store), cmp snapshot e st = ref e st.
+Print Assumptions operand_rule_sound_general.
+
+Theorem operand_snapshot_old_refuted : exists (e : ex) (st : store), fst (cmp snapshot_old e st) <> fst (ref e st).
+Proof. exact operand_snapshot_old_refuted_. Qed.
+Check operand_snapshot_old_refuted : exists (e : ex) (st : store), fst (cmp snapshot_old e st) <> fst (ref e st).
+Print Assumptions operand_snapshot_old_refuted.
+
+(* Move(dst, local); Inc(local, dst) with the repaired Inc implements postfix ++ of ECMA-262 13.4.2.1 on a local:
+   the expression value is ToNumeric(old), the local gets old + 1, nothing else changes; if ToNumeric throws the local
+   keeps its value *)
+Theorem update_on_local_sound : forall (loc dst : nat) (r : regs), dst <> loc ->
+  match to_numeric (r loc) with
+  | Some z => exists r', postfix_new loc dst r = Done r' /\ r' dst = VNum z /\ r' loc = VNum (z + 1) /\
+                         (forall j, j <> loc -> j <> dst -> r' j = r j)
+  | None => exists r', postfix_new loc dst r = Threw r' /\ r' loc = r loc /\ (forall j, j <> dst -> r' j = r j)
+  end.
+Proof. exact update_on_local_sound_. Qed.
+Check update_on_local_sound : forall (loc dst : nat) (r : regs), dst <> loc ->
+  match to_numeric (r loc) with
+  | Some z => exists r', postfix_new loc dst r = Done r' /\ r' dst = VNum z /\ r' loc = VNum (z + 1) /\
+                         (forall j, j <> loc -> j <> dst -> r' j = r j)
+  | None => exists r', postfix_new loc dst r = Threw r' /\ r' loc = r loc /\ (forall j, j <> dst -> r' j = r j)
+  end.
+Print Assumptions update_on_local_sound.
+
+Theorem update_on_local_old_refuted :
+  (exists r r', postfix_old inc_new 0 1 r = Done r' /\ to_numeric (r 0) = Some 5%Z /\ r' 1 <> VNum 5) /\
+  (exists r r', postfix_old inc_old 0 1 r = Threw r' /\ r' 0 <> r 0).
+Proof. exact update_on_local_old_refuted_. Qed.
+Check update_on_local_old_refuted :
+  (exists r r', postfix_old inc_new 0 1 r = Done r' /\ to_numeric (r 0) = Some 5%Z /\ r' 1 <> VNum 5) /\
+  (exists r r', postfix_old inc_old 0 1 r = Threw r' /\ r' 0 <> r 0).
+Print Assumptions update_on_local_old_refuted.
+
+(* try_hoist_loop_condition as repaired: when it hoists the const right operand (not a do-while, not under `with`,
+   left operand without side effect) the loop produces the event sequence of the unhoisted loop, for every number of
+   iterations, whether or not the const is still in its TDZ *)
+Theorem hoist_const_sound :
+  forall (lhs_eff : bool) (l cv : nat -> Z) (tdz is_do under_with : bool) (fuel : nat),
+    hoist_ok_new lhs_eff is_do under_with = true ->
+    (under_with = false -> forall j, cv j = cv 0) ->
+    hoisted lhs_eff l cv tdz is_do fuel = spec lhs_eff l cv tdz is_do fuel.
+Proof. exact hoist_const_sound_. Qed.
+Check hoist_const_sound :
+  forall (lhs_eff : bool) (l cv : nat -> Z) (tdz is_do under_with : bool) (fuel : nat),
+    hoist_ok_new lhs_eff is_do under_with = true ->
+    (under_with = false -> forall j, cv j = cv 0) ->
+    hoisted lhs_eff l cv tdz is_do fuel = spec lhs_eff l cv tdz is_do fuel.
+Print Assumptions hoist_const_sound.
+
+Theorem hoist_const_old_refuted :
+  (exists fuel, hoisted false (fun _ => 0%Z) (fun _ => 2%Z) true true fuel <> spec false (fun _ => 0%Z) (fun _ => 2%Z) true true fuel) /\
+  (exists fuel, hoisted false Z.of_nat (fun i => match i with O => 3%Z | _ => 1%Z end) false false fuel
+                <> spec false Z.of_nat (fun i => match i with O => 3%Z | _ => 1%Z end) false false fuel) /\
+  (exists fuel, hoisted true (fun _ => 0%Z) (fun _ => 1%Z) true false fuel <> spec true (fun _ => 0%Z) (fun _ => 1%Z) true false fuel).
+Proof. exact hoist_const_old_refuted_. Qed.
+Check hoist_const_old_refuted :
+  (exists fuel, hoisted false (fun _ => 0%Z) (fun _ => 2%Z) true true fuel <> spec false (fun _ => 0%Z) (fun _ => 2%Z) true true fuel) /\
+  (exists fuel, hoisted false Z.of_nat (fun i => match i with O => 3%Z | _ => 1%Z end) false false fuel
+                <> spec false Z.of_nat (fun i => match i with O => 3%Z | _ => 1%Z end) false false fuel) /\
+  (exists fuel, hoisted true (fun _ => 0%Z) (fun _ => 1%Z) true false fuel <> spec true (fun _ => 0%Z) (fun _ => 1%Z) true false fuel).
+Print Assumptions hoist_const_old_refuted.
